@@ -244,12 +244,15 @@ impl AlternateTime {
             + i64::from(self.std.ut_offset)
             - i64::from(self.dst.ut_offset);
 
+        // Which transition comes first in the year is decided by the two instants, as in
+        // `find_local_time_type`; comparing calendar months is wrong when both fall in one month.
+        let dst_starts_first = dst_start_transition_start - i64::from(self.std.ut_offset)
+            < dst_end_transition_start - i64::from(self.dst.ut_offset);
+
         match self.std.ut_offset.cmp(&self.dst.ut_offset) {
             Ordering::Equal => Ok(crate::MappedLocalTime::Single(self.std)),
             Ordering::Less => {
-                if self.dst_start.transition_date(current_year).0
-                    < self.dst_end.transition_date(current_year).0
-                {
+                if dst_starts_first {
                     // northern hemisphere
                     // For the DST END transition, the `start` happens at a later timestamp than the `end`.
                     if local_time <= dst_start_transition_start {
@@ -292,9 +295,7 @@ impl AlternateTime {
                 }
             }
             Ordering::Greater => {
-                if self.dst_start.transition_date(current_year).0
-                    < self.dst_end.transition_date(current_year).0
-                {
+                if dst_starts_first {
                     // southern hemisphere reverse DST
                     // For the DST END transition, the `start` happens at a later timestamp than the `end`.
                     if local_time < dst_start_transition_end {
